@@ -31,7 +31,9 @@ TRUSTED = [
     "and centres), Rvectors.reorder (left/right shifts), Rvectors.cRvec_shifted, "
     "Rvectors.derivative (any order); the rotation of a system is the harness helper rotate_system, itself checked "
     "against the model",
-    "not modelled (oracle only): eigh, R_to_k/FFT, the formulas and calculators, run()",
+    "not modelled (oracle only): eigh, R_to_k/FFT, the formulas and calculators, run(); double_spin and the index list "
+    "of spin_block2interlace enter the correspondence as prehistory (their own output is the starting state, the model "
+    "checks the reorder that follows)",
     "dyadic lattices/centres/matrices make numpy's arithmetic exact in the correspondence (cRvec_shifted within 1e-12 "
     "because wannier_centers_red passes through a matrix inverse)",
 ]
@@ -42,7 +44,12 @@ RULE = ("corr: dyadic systems with 2-5 Wannier functions, random permutations (i
         "unitary on the co-centred groups, and both composed (permutations preferably not involutions); the systems carry "
         "every matrix key and the integrated calculators include those consuming OO (AHC OO_uIu), FF (AHC_test, quantum "
         "metric), SA/SHA (SHC ryoo), SR/SH/SHR (SHC qiao); run() on FFT grids and evaluate_k at random k; the system "
-        "is always USED in a calculation before it is deep-copied and transformed (history: caches populated).  "
+        "is always USED in a calculation before it is deep-copied and transformed (history: caches populated); "
+        "multi-step histories: before the transformation under test the system passes through random sequences of the "
+        "other structural operations of the API (double_spin of a spinless system, earlier reorder, spin_block2interlace "
+        "in both directions, use in a calculation), in the correspondence (left AND right shifts, centres, every matrix "
+        "compared with the model after the history) and in the oracle (tabulated quantities, AHC, Morb, Ohmic at a random "
+        "k; the transformation is applied to a deep copy or in place).  "
         "non-trivial = permutation is not the identity / some group has >= 2 functions; distinct = distinct "
         "(kind, seed, parameters)")
 
@@ -81,6 +88,26 @@ def rotate_system(s, U):
         s.set_R_mat(key, np.einsum("ba,rbc...,cd->rad...", U.conj(), X, U), reset=True)
 
 
+SPIN_KEYS = ("SS", "SHR", "SHA", "SH", "SA", "SR")
+
+
+def strip_spin(s):
+    """make a system spinless again (double_spin refuses systems that carry spin matrices)"""
+    for key in list(s._XX_R):
+        if key in SPIN_KEYS or key.startswith("dV_soc") or key == "overlap_up_down":
+            del s._XX_R[key]
+    return s
+
+
+def spin_mapping(nw, backward):
+    """the index list of spin_block2interlace, written from its docstring: block = all up then all down,
+    interlace = up, down, up, down ..."""
+    h = nw // 2
+    if backward:
+        return [2 * i for i in range(h)] + [2 * i + 1 for i in range(h)]
+    return [i // 2 + (i % 2) * h for i in range(nw)]
+
+
 def dyadic_system(rs, nw, lattice, centers):
     from ..wbsys import rand_system
     with quiet():
@@ -112,11 +139,38 @@ def corr(ctx):
         if rng.random() < 0.5:
             cen[rng.randrange(nw)] = cen[0]
         s = dyadic_system(rs, nw, lat, cen)
+        # prehistory: the system reaches reorder() after other structural operations of the API (the property
+        # quantifies over systems, not over freshly constructed ones): an earlier reorder, double_spin (spinless copy),
+        # spin_block2interlace in either direction
+        pre = []
+        for _ in range(rng.choice([0, 0, 1, 1, 2, 3])):
+            op = rng.choice(["reorder", "double_spin", "block2interlace", "interlace2block"])
+            with quiet():
+                if op == "reorder":
+                    q = list(range(nw))
+                    rng.shuffle(q)
+                    s.reorder(q)
+                    cen = cen[q]
+                elif op == "double_spin":
+                    if getattr(s, "spinor", False) or nw > 4:
+                        continue
+                    strip_spin(s)
+                    s.double_spin()
+                    cen = np.repeat(cen, 2, axis=0)
+                    nw = 2 * nw
+                else:
+                    if nw % 2:
+                        continue
+                    back = op == "interlace2block"
+                    s.spin_block2interlace(backward=back)
+                    cen = cen[spin_mapping(nw, back)]
+            pre.append(op)
+            ctx.count(f"corr.prehistory.{op}")
         p = list(range(nw))
         if rng.random() < 0.9:
             while p == sorted(p):
                 rng.shuffle(p)
-        case = dict(nw=nw, lattice=lat, centers=cen, perm=p)
+        case = dict(nw=nw, lattice=lat, centers=cen, perm=p, prehistory=pre)
         ctx.count(f"corr.nw={nw}")
         ctx.count("corr.identity_perm" if p == sorted(p) else "corr.nontrivial_perm")
         if rng.random() < 0.7:
@@ -361,7 +415,104 @@ def case_k(ctx, case):
                 tol=1e-8 * max(1.0, 1e-2 / gap ** 2))
 
 
-RUNNERS = {"run": case_run, "k": case_k}
+def unitary_on_groups(rs, groups):
+    """a unitary mixing only Wannier functions with the same centre label (arbitrary index sets)"""
+    from scipy.stats import unitary_group
+    n = len(groups)
+    U = np.zeros((n, n), dtype=complex)
+    for g in sorted(set(groups)):
+        idx = [i for i in range(n) if groups[i] == g]
+        U[np.ix_(idx, idx)] = unitary_group.rvs(len(idx), random_state=rs) if len(idx) > 1 else np.exp(2j * np.pi * rs.uniform())
+    return U
+
+
+def case_hist(ctx, case):
+    """multi-step histories: the system goes through a sequence of structural operations of the public API
+    (double_spin, reorder, spin_block2interlace / interlace2block, use in a calculation) BEFORE the relabelling /
+    co-centred rotation under test; results before and after the transformation must agree"""
+    from ..wbsys import rand_system, wb
+    from wannierberri.calculators.tabulate import TabulatorAll
+    from wannierberri.calculators import static as S
+    rs = np.random.RandomState(case["seed"])
+    sizes = case["sizes"]
+    c0 = rs.uniform(0, 1, (len(sizes), 3))
+    with quiet():
+        s = rand_system(rs, num_wann=int(sum(sizes)), nR=int(rs.randint(3, 6)), max_R=1, matrices=("Ham", "AA", "BB", "CC"),
+                        centers=np.repeat(c0, sizes, axis=0))
+    groups = list(np.repeat(np.arange(len(sizes)), sizes))
+    k = rs.uniform(0, 1, 3)
+    names = ("energy", "band_gradients", "berry_curvature", "berry_curvature_internal", "berry_curvature_external",
+             "orbital_moment", "der_berry_curvature", "inv_mass")
+
+    def evaluate(sys_):
+        tabs = {k_: v for k_, v in tabulators().items() if k_ in names}
+        H = sys_.get_R_mat("Ham")
+        bound = float(sum(np.linalg.norm(H[i], 2) for i in range(H.shape[0])))
+        Ef = np.linspace(-0.6 * bound, 0.6 * bound, 5)
+        with quiet():
+            return wb.evaluate_k(sys_, k=k, calculators={"tab": TabulatorAll(tabs, mode="grid"), "ahc": S.AHC(Efermi=Ef),
+                                                         "morb": S.Morb(Efermi=Ef), "ohmic": S.Ohmic_FermiSea(Efermi=Ef)})
+    done = []
+    for op in case["prehistory"]:
+        n = s.num_wann
+        with quiet():
+            if op == "double_spin":
+                if getattr(s, "spinor", False):
+                    continue
+                s.double_spin()
+                groups = [g for g in groups for _ in range(2)]
+            elif op == "reorder":
+                q = [int(x) for x in rs.permutation(n)]
+                s.reorder(q)
+                groups = [groups[i] for i in q]
+            elif op in ("block2interlace", "interlace2block"):
+                if n % 2:
+                    continue
+                back = op == "interlace2block"
+                s.spin_block2interlace(backward=back)
+                groups = [groups[i] for i in spin_mapping(n, back)]
+            elif op == "use":
+                evaluate(s)
+        done.append(op)
+    ra = evaluate(s)
+    s2 = copy.deepcopy(s) if case.get("copy", True) else s
+    n = s2.num_wann
+    desc = dict(prehistory_done=done)
+    if case["how"] in ("rotate", "both"):
+        U = unitary_on_groups(rs, groups)
+        with quiet():
+            rotate_system(s2, U)
+        desc["U"] = U
+    if case["how"] in ("reorder", "both"):
+        p = [int(x) for x in rs.permutation(n)]
+        for _ in range(20):
+            if n < 3 or any(p[p[i]] != i for i in range(n)):
+                break
+            p = [int(x) for x in rs.permutation(n)]
+        with quiet():
+            s2.reorder(p)
+        desc["perm"] = p
+    rb = evaluate(s2)
+    ctx.case(signature=("hist", case["seed"], tuple(sizes), case["how"], tuple(done)), nontrivial=len(done) > 0)
+    for op in done:
+        ctx.count(f"oracle.hist.prehistory.{op}")
+    E = ra["tab"].results["energy"].data[0]
+    gaps = np.diff(E)
+    gap = min([g for g in gaps if g > 1e-6] + [1.0])      # exact Kramers-like pairs of a doubled system are grouped
+    if gap < 1e-3:
+        ctx.count("oracle.hist.skipped_small_gap")
+        return
+    info = dict(case, k=k, **desc)
+    tol = 1e-8 * max(1.0, 1e-2 / gap ** 2)
+    for name in ("ahc", "morb", "ohmic"):
+        compare(ctx, f"{name} at one k before/after '{case['how']}' following the history {done} (groups {sizes})",
+                ra[name].data, rb[name].data, dict(info, calculator=name), tol=tol)
+    for name in ra["tab"].results:
+        compare(ctx, f"{name} at k={k.tolist()} before/after '{case['how']}' following the history {done} (groups {sizes})",
+                ra["tab"].results[name].data, rb["tab"].results[name].data, dict(info, quantity=name), tol=tol)
+
+
+RUNNERS = {"run": case_run, "k": case_k, "hist": case_hist}
 SIZES = [[2, 2], [2, 1], [1, 2, 1], [3, 1], [2, 3], [1, 1, 1], [3], [2, 2, 1], [1, 3]]
 
 
@@ -376,6 +527,11 @@ def oracle(ctx, scale):
         cases.append(dict(kind="run", seed=rng.getrandbits(31), sizes=rng.choice(SIZES[:6]),
                           how=rng.choice(["reorder", "rotate", "both"]), NKdiv=[rng.randint(1, 2) for _ in range(3)],
                           tetra=(ctx.tier == "thorough" and rng.random() < 0.25)))
+    OPS = ["double_spin", "reorder", "block2interlace", "interlace2block", "use"]
+    for _ in range(ctx.n(8, 100) * scale):
+        cases.append(dict(kind="hist", seed=rng.getrandbits(31), sizes=rng.choice([[1, 1], [2, 1], [1, 2], [1, 1, 1], [2, 2]]),
+                          how=rng.choice(["reorder", "reorder", "rotate", "both"]),
+                          prehistory=[rng.choice(OPS) for _ in range(rng.randint(1, 4))], copy=rng.random() < 0.7))
     for case in cases:
         ctx.count(f"oracle.{case['kind']}.{case['how']}")
         with ctx.attempt(f"{case['kind']} case", case):
@@ -388,7 +544,7 @@ def replay(ctx, case):
     for f in fails:
         c = f.get("case", {})
         if isinstance(c, dict) and c.get("kind") in RUNNERS:
-            cc = {k: c[k] for k in ("kind", "seed", "sizes", "how", "NKdiv", "tetra") if k in c}
+            cc = {k: c[k] for k in ("kind", "seed", "sizes", "how", "NKdiv", "tetra", "prehistory", "copy") if k in c}
             key = repr(sorted(cc.items()))
             if key in done:
                 continue
